@@ -188,6 +188,8 @@ func Marshal(data any, args ...any) (out []byte, err error) {
 		wr, _ = marshalPool.Get().(*Writer)
 		defer marshalPool.Put(wr)
 	} else {
+		orig := wr.strict
+		defer func() { wr.strict = orig }()
 		wr.strict = true
 	}
 	defer func() {
